@@ -70,6 +70,13 @@ class Sim:
         self.hooks = {}                   # ordinal -> callable (batch-rule flip)
         self.acc_switch_mid = 0
         self.lastline = {}
+        if self.policy.get('name') == 'pct':
+            self.pct_prio = dict(self.policy['prio'])
+            self.pct_changes = set(self.policy['changes'])
+
+    @staticmethod
+    def role(name):
+        return 'main' if name == 'main' else name[-4:]
 
     def register(self, name, state='runnable'):
         st = {'sem': threading.Semaphore(0), 'state': state, 'waiting_for': None, 'parked': threading.Event()}
@@ -138,6 +145,12 @@ class Sim:
                     nxt = name
                 else:
                     nxt = self.prng.choice(r)
+            elif pn == 'pct':
+                # PCT-style: strict priorities per role, lowered at a few seeded change points
+                pr = self.pct_prio
+                if k in self.pct_changes and name in r:
+                    pr[self.role(name)] = min(pr.values()) - 1
+                nxt = max(r, key=lambda x: (pr.get(self.role(x), 0), x))
             elif pn == 'main_last':
                 o = [x for x in r if x != 'main']
                 if o:
@@ -445,7 +458,7 @@ def _w(r, items):
     return items[-1][0]
 
 
-POLICIES = ['uniform', 'sticky', 'starve1', 'starve2', 'alternate', 'main_first', 'main_last']
+POLICIES = ['uniform', 'sticky', 'starve1', 'starve2', 'alternate', 'main_first', 'main_last', 'pct', 'pct']
 
 
 def gen_policy(r, name=None):
@@ -461,6 +474,12 @@ def gen_policy(r, name=None):
         return {'name': 'main_first', 'p': 0.05, 'seed': seed}
     if name == 'main_last':
         return {'name': 'main_last', 'p': 0.2, 'seed': seed}
+    if name == 'pct':
+        roles = ['main', 'acc1', 'acc2']
+        pri = r.sample([3, 2, 1], 3)
+        d = r.choice([1, 2, 2, 3, 4])
+        horizon = r.choice([150, 400, 1200, 4000])
+        return {'name': 'pct', 'prio': dict(zip(roles, pri)), 'changes': sorted(r.sample(range(1, horizon), d)), 'seed': seed}
     return {'name': name, 'seed': seed}
 
 
